@@ -4,7 +4,7 @@ import traceback
 
 from . import base
 
-MODULES = ['flags', 'chain', 'core', 'globc']
+MODULES = ['flags', 'chain', 'core', 'globc', 'matchc']
 
 
 def all_contracts():
